@@ -288,6 +288,7 @@ def run(ctx):
     latticegen.regenerate(ctx, "C07")
     binary_exhaustive(ctx, ctx.budget(5, 6))
     lattice.stream(ctx, ctx.budget(600, 6000), "dense")
+    lattice.angular_stream(ctx, ctx.budget(500, 5000), "metrics")
     general(ctx, ctx.budget(3, 20))
     identity_search(ctx, ctx.budget(3000, 40000))
     bit_metrics(ctx)
